@@ -653,7 +653,14 @@ class MultiFit(FitBase):
         if _data_size is None:
             return None
         else:
-            return self.data_size - len(self._combined_parameter_node_dict.keys()) + len(self._fitter.fixed_parameters)
+            # parameter constraints of the multi fit and of its members count as additional measurements
+            _extra_ndf_constraints = 0
+            for _parameter_constraint in self._fit_param_constraints:
+                _extra_ndf_constraints += _parameter_constraint.extra_ndf
+            for _fit in self._fits:
+                for _parameter_constraint in _fit.parameter_constraints:
+                    _extra_ndf_constraints += _parameter_constraint.extra_ndf
+            return self.data_size - len(self._combined_parameter_node_dict.keys()) + len(self._fitter.fixed_parameters) + _extra_ndf_constraints
 
     @property
     def goodness_of_fit(self):
